@@ -29,6 +29,7 @@ func runC08(c *Ctx) {
 	c08R3(c, m, "R3")
 	c08R4(c)
 	exprListFresh(c, "R4")
+	c.shared("R8", "C19/R4", "names bound by a match pattern are those of the alternative that matched: the binding map is made per alternative, so a name bound by a failed alternative neither shadows nor overwrites an outer variable", keyHas("bindings-per-alternative"), runC19)
 	c.shared("R7", "C09/R3", "arguments are passed by value: the copy of a null argument is a plain null without the link to the object it was read from (through which an assignment to the parameter would create a member in the caller's object)", keyHas("copy Value", "copy-on-insert ExprCall.Args"), c09R3)
 	sentinelIdentity(c, "R6")
 	if es := c.P.LangFunc("(*Evaluator).evalStatement"); es != nil {
